@@ -27,6 +27,7 @@ func init() {
 }
 
 func runC29(c *eng.Ctx) {
+	defer runC29Sorted(c)
 	p := c.P
 	Q := "promql:"
 	// the operators' own symbols
